@@ -83,6 +83,16 @@ def r_cast(ctx: Ctx, rt):
     ctx.ob(len(outs) == 1 and outs[0].kind == "ok" and isinstance(outs[0].value, list) and len(outs[0].value) == 3,
            Finding("C07.RT-cast", fi.where, "cast_string|list", f"cast_string('[1 2 3]') yields {outs[0]!r}; required a 3-element list"),
            nontrivial_key=("cast", "list"))
+    # the writer's half of the pair: _to_string spells a list / tuple of numbers the way the reader's '[..]' rule (and the model-range
+    # lines, read through _from_list) expects, and spells everything as text
+    ts = model.func("pygaps.utilities.string_utilities._to_string")
+    I2 = make_interp(model)
+    for val, want in ((["1", "2", "3"], "[1 2 3]"), (("1", "2"), "(1 2)"), (["7"], "[7]"), ("abc", "abc")):
+        outs = I2.explore(lambda I: I.call_func(ts, [I.from_py(val)], {}, None))
+        got = outs[0].value if len(outs) == 1 and outs[0].kind == "ok" else outs
+        ctx.ob(got == want, Finding("C07.RT-cast", ts.where, f"_to_string|{val!r}",
+                                    f"_to_string({val!r}) yields {got!r}; the importers read {want!r} (space-separated items inside the brackets)"),
+               nontrivial_key=("tostring", repr(val)))
 
 
 def run(ctx: Ctx):
